@@ -1,5 +1,6 @@
 (* C16 — meta encoding. Property theorems only; proofs live in Meta/Thms.v. *)
 From V Require Import Base.Prelude Base.Prog Meta.Model Meta.Thms.
+From V Require Import Meta.RoundTrip.
 
 (* payloads of up to 22 bytes always fit one block *)
 Theorem meta_22_fits : forall buf final,
@@ -24,3 +25,33 @@ Theorem meta_writer_buffer_fits : forall buf b,
   buf_fits buf -> (length buf <= 31)%nat -> fits_with buf b = true -> buf_fits (buf ++ [b]).
 Proof. exact fits_with_sound. Qed.
 Print Assumptions meta_writer_buffer_fits.
+
+(* LOSSLESS, for EVERY payload and final mode: whatever block the encoder produces, the
+   decoder - started at any byte-aligned position of any stream - returns exactly the
+   payload and the mode and stops exactly at the end of the block. The heart of the proof
+   is the decoder's rolling 8-bit window never becoming zero on encoder output (a zero run
+   emits at most three one-bit zero symbols before a prefixed symbol). *)
+Theorem meta_block_decodes_to_payload_and_mode : forall buf final bits,
+  (forall b, In b buf -> b < 256) ->
+  encode_block_bits buf final = Some bits ->
+  forall rest pos out len,
+    pos mod 8 = 0 ->
+    run decode_block (mkAst (bits ++ rest) pos out len)
+    = Done (BBlock buf final) (mkAst rest (pos + N.of_nat (length bits)) out len).
+Proof. exact meta_block_roundtrip. Qed.
+Print Assumptions meta_block_decodes_to_payload_and_mode.
+
+(* SIZE-BOUNDED and byte-aligned: every block is 12 to 64 bytes *)
+Theorem meta_block_is_12_to_64_bytes : forall buf final bits,
+  (forall b, In b buf -> b < 256) ->
+  encode_block_bits buf final = Some bits ->
+  (12 * 8 <= length bits <= 64 * 8)%nat.
+Proof. exact meta_block_size. Qed.
+Print Assumptions meta_block_is_12_to_64_bytes.
+
+Theorem meta_block_is_whole_bytes : forall buf final bits,
+  (forall b, In b buf -> b < 256) ->
+  encode_block_bits buf final = Some bits ->
+  N.of_nat (length bits) mod 8 = 0.
+Proof. exact meta_block_length_aligned. Qed.
+Print Assumptions meta_block_is_whole_bytes.
